@@ -24,6 +24,8 @@ GROUPS = {
     "media": {"media_cache", "comp_hash_mapping", "_resolve_media", "resolved", "_component_media",
               "component_media_cache", "get_component_media_cache"},
     "misc": {"component_node_subclasses_by_name", "_djc_is_component_nested", "_metadata_stack"},
+    # lines that go through a class object (state memoised on classes is shared by every thread rendering that class)
+    "classattr": {"__class__", "component_cls", "comp_cls", "component_class"},
 }
 GROUP_BIT = {g: 1 << i for i, g in enumerate(GROUPS)}
 NAME_BITS = {}
